@@ -377,6 +377,22 @@ func init() {
 	reg("strconv.FormatUint", str)
 	reg("github.com/gogo/protobuf/proto.CompactTextString", str)
 	reg("gopkg.in/yaml.v2.Marshal", func(c *LibCtx, a []*Val) *Val { return tupleOf(c.sig, c.x.freshResultsAssumed(c.st, c.sig)) })
+	reg("(*encoding/base64.Encoding).DecodeString", func(c *LibCtx, a []*Val) *Val {
+		err := freshErr(c, "b64err")
+		c.st.Assume(Eq(Eq(err.Tag, Num(0)), UF("b64ok", []string{SStr}, SBool, a[1].T)))
+		return &Val{K: VTuple, Typ: c.sig.Results(), Fields: []*Val{strVal(UF("b64dec", []string{SStr}, SStr, a[1].T), c.resType(0)), err}}
+	})
+	reg("(*crypto/x509.Certificate).CheckSignature", func(c *LibCtx, a []*Val) *Val {
+		// cryptographic verification is uninterpreted: a predicate of certificate, algorithm, signed bytes, signature
+		err := freshErr(c, "sigerr")
+		var certT *Term = Num(0)
+		if a[0].K == VPtr && a[0].T != nil {
+			certT = a[0].T
+		}
+		ok := UF("sigVerifies", []string{SStr, SInt, SStr, SStr}, SBool, UF("certSource", []string{SInt}, SStr, certT), a[1].T, a[2].T, a[3].T)
+		c.st.Assume(Eq(Eq(err.Tag, Num(0)), ok))
+		return err
+	})
 	reg("fmt.Println", func(c *LibCtx, a []*Val) *Val { return tupleOf(c.sig, c.x.freshResultsAssumed(c.st, c.sig)) })
 	reg("fmt.Printf", func(c *LibCtx, a []*Val) *Val { return tupleOf(c.sig, c.x.freshResultsAssumed(c.st, c.sig)) })
 }
